@@ -3,10 +3,11 @@ import json
 import os
 
 ID = "C15"
+GEN = "c15"
 HARNESS_TEST = "TestC15"
-COQ_MODEL = ["C15/Check.v"]
+COQ_MODEL = ["C15/Check.v", "C15/Sites.v", "Gen/C15Facts.v"]
 COQ_PROOF_DEPS = ["C15/Proofs.v"]
-COQ_OBLIG = ["C15/Property.v"]
+COQ_OBLIG = ["C15/Property.v", "Gen/C15Oblig.v"]
 CASES_HEADER = "Require Import Nib.C15.Model Nib.C15.Spec Nib.C15.Check.\nOpen Scope string_scope."
 CASE_TYPE = "case"
 MISMATCH_FN = "mismatch"
@@ -269,7 +270,7 @@ MANIFEST = {
                    "every run (C15_LENIENT=1 evaluates the realised form). signature() identifies the known finding only when the lenient "
                    "checker holds on the record and model = implementation (decided by coqc on that record). Flags taken from the "
                    "implementation: sdk.ValidateDenom, bech32 parsing of mint_to/burn_from/new_admin, bank Metadata.Validate, BlockedAddr. "
-                   "One message per tx, fee 0, correctly signed; no generated facts (the property has no configuration-like part). "
+                   "One message per tx, fee 0, correctly signed. Generated facts (Gen/C15Facts.v, obligation C15_current_handlers_match_model): per handler the ordered guards / gates / writes with locals inlined and same-package helpers followed, admin-lookup store keys, DenomStr.ToStruct reject conditions, denom format. "
                    "Trusted: Coq kernel + vm_compute, the driver's address renaming (@i / @Ui, injective) and snapshot reads."),
-    "technique": "Coq proof (per-message case analysis, invariants and induction over histories; refutation by vm_compute witness) + differential correspondence on DeliverTx traces",
+    "technique": "Coq proof (per-message case analysis, invariants and induction over histories; refutation by vm_compute witness) + generated handler-event facts + differential correspondence on DeliverTx traces",
 }
